@@ -64,23 +64,19 @@ fn variant_marshal(enum_name: syn::Ident, variant: &syn::Variant) -> TokenStream
 
             quote! {
                 #enum_name::#name{ #( #field_names1, )* } => {
-                    // marshal signature
-                    let pos = ctx.buf.len();
-                    ctx.buf.push(0);
-
-                    ctx.buf.push(b'(');
+                    // marshal signature: built first and checked (at most 255 characters, valid nesting), the
+                    // length byte cannot say more
+                    let mut full_sig = String::from("(");
                     let mut sig_str = ::rustbus::wire::marshal::traits::SignatureBuffer::new();
                     #(
                         sig_str.clear();
                         <#field_types as ::rustbus::Signature>::sig_str(&mut sig_str);
-                        ctx.buf.extend_from_slice(sig_str.as_ref().as_bytes());
+                        full_sig.push_str(sig_str.as_ref());
                     )*
-                    ctx.buf.push(b')');
-                    ctx.buf.push(0);
+                    full_sig.push(')');
+                    ::rustbus::params::validation::validate_signature(&full_sig)?;
+                    ::rustbus::wire::util::write_signature(&full_sig, &mut ctx.buf);
 
-
-                    // -2 for pos and nullbyte
-                    ctx.buf[pos] = (ctx.buf.len() - pos - 2) as u8;
 
                     // actual marshal code
                     // align to 8 because we treat this as a struct
@@ -102,22 +98,19 @@ fn variant_marshal(enum_name: syn::Ident, variant: &syn::Variant) -> TokenStream
 
             quote! {
                 #enum_name::#name( #( #field_names1, )* ) => {
-                    // marshal signature
-                    let pos = ctx.buf.len();
-                    ctx.buf.push(0);
-
-                    ctx.buf.push(b'(');
+                    // marshal signature: built first and checked (at most 255 characters, valid nesting), the
+                    // length byte cannot say more
+                    let mut full_sig = String::from("(");
                     let mut sig_str = ::rustbus::wire::marshal::traits::SignatureBuffer::new();
                     #(
                         sig_str.clear();
                         <#field_types as ::rustbus::Signature>::sig_str(&mut sig_str);
-                        ctx.buf.extend_from_slice(sig_str.as_ref().as_bytes());
+                        full_sig.push_str(sig_str.as_ref());
                     )*
-                    ctx.buf.push(b')');
-                    ctx.buf.push(0);
+                    full_sig.push(')');
+                    ::rustbus::params::validation::validate_signature(&full_sig)?;
+                    ::rustbus::wire::util::write_signature(&full_sig, &mut ctx.buf);
 
-                    // -2 for pos and nullbyte
-                    ctx.buf[pos] = (ctx.buf.len() - pos - 2) as u8;
 
                     // align to 8 because we treat this as a struct
                     ctx.align_to(8);
@@ -136,6 +129,7 @@ fn variant_marshal(enum_name: syn::Ident, variant: &syn::Variant) -> TokenStream
                 #enum_name::#name( val ) => {
                     let mut sig_str = ::rustbus::wire::marshal::traits::SignatureBuffer::new();
                     <#ty as ::rustbus::Signature>::sig_str(&mut sig_str);
+                    ::rustbus::params::validation::validate_signature(sig_str.as_ref())?;
                     ::rustbus::wire::util::write_signature(sig_str.as_ref(), &mut ctx.buf);
 
                     val.marshal(ctx)?;
